@@ -249,7 +249,7 @@ PROPS = {
     'C05': dict(corr=[RB, RBQ, RBC, RBW, E05]),
     'C06': dict(corr=[RB, RBC, RBW, HB, HBF, E05]),
     'C07': dict(corr=[MG, DAG]),
-    'C08': dict(corr=[DAG, RBC, RBW, PFORK]),
+    'C08': dict(corr=[DAG, RBC, RBW, PFORK, TKR]),
     'C09': dict(corr=[RUN, HB, HBF, K09B, E01]),
     'C10': dict(level='translation_validation', corr=[RES, DEP, E10, E10S]),
     'C11': dict(corr=[LN, K11D, E11, E11W]),
